@@ -387,10 +387,14 @@ func (s *fsm13) handleReceivedFlight( //nolint:cyclop
 ) (receivedFlightTransition, error) {
 	// Keep the reader paused while this receive state is parsed.
 	s.received.retain(received)
-	if !received.IsRetransmit {
+	ackResult := s.flightACK.acknowledge(received.ACKs)
+	if (received.HasHandshake && !received.IsRetransmit) || len(ackResult.Messages) != 0 {
+		// Only new data restores the initial interval: a handshake message we had
+		// not seen, or an ACK that acknowledges something still outstanding. An ACK
+		// for records we are not waiting on (a stale copy, or one anybody made up)
+		// is neither, and must not undo the back-off.
 		s.retransmitInterval = s.cfg.InitialRetransmitInterval
 	}
-	ackResult := s.flightACK.acknowledge(received.ACKs)
 	s.applyACKProgress(ackResult)
 	if !received.HasHandshake && len(received.ACKs) != 0 {
 		return s.transitionAfterACK(ackResult, false), nil
